@@ -72,8 +72,8 @@ def enlarge_segment(data: bytes, seg_no: int, extra: int) -> bytes:
 
 
 def pad_with_free(data: bytes) -> bytes:
-    """The same media with top-level `free` padding boxes where a packager may legally leave them: 16 bytes between moov and the
-    first fragment, 24 bytes after the second mdat, 8 bytes (header only) at the end of the file.  Offsets inside the fragments
+    """The same media with top-level `free` padding boxes where a packager may legally leave them: 24 bytes before ftyp (so the
+    initialization segment does not begin at offset 0), 16 bytes between moov and the first fragment, 24 bytes after the second mdat, 8 bytes (header only) at the end of the file.  Offsets inside the fragments
     are relative to their moof and stay valid; the result is verified to be well-formed."""
     p = Parsed(data)
     moov = next(b for b in p.top if b.name == 'moov')
@@ -81,7 +81,7 @@ def pad_with_free(data: bytes) -> bytes:
     if len(mdats) < 2:
         raise ValueError('need at least two fragments')
     first_media = next(b for b in p.top if b.pos >= moov.end)
-    cuts = [(first_media.pos, 16), (mdats[1].end, 24), (len(data), 8)]
+    cuts = [(0, 24), (first_media.pos, 16), (mdats[1].end, 24), (len(data), 8)]
     # a whole-file sidx (one entry per fragment) would have to be rewritten: only per-segment indexes are supported here
     for b in p.top:
         if b.name == 'sidx' and b.pos < first_media.pos + 1 and len(b.f.get('references', [])) > 1:
